@@ -93,7 +93,11 @@ Fixpoint pick (hdrs : list (bytes * bytes)) : option Z :=
    stands for its output) and then, if the context has a deadline, the pair
    ("GRPC-Timeout", encode (deadline - now)). contextFromHeaders makes
    context.WithTimeout(ctx, d) for the first header that [pick] accepts: the
-   handler's deadline is its own now + d; Serve's context has no deadline. *)
+   handler's deadline is its own now + d; Serve's context has no deadline.
+   Because the caller's metadata precedes the appended pair and [pick] takes the
+   first header that parses, a caller who puts the reserved key grpc-timeout
+   into its own outgoing metadata overrides its deadline (outside the property's
+   quantifier: the theorems assume the caller's metadata does not use the key). *)
 Inductive rkind := KUnary | KStream.
 
 Definition client_timeout_key : bytes := B"GRPC-Timeout".
